@@ -275,14 +275,64 @@ Example C01_simply_typed_example :
                 SExpr None (ECall (EVar n_shout None) [EBin OEq (EVar [102] None) (ENum (of_Z 0))] None)] = true.
 Proof. vm_compute. reflexivity. Qed.
 
-(* ================================================================ cited and composed statements *)
-(* Properties/C01X.v (built by every `bin/check C01`, see EXTRA_COQ_TARGETS in lib/props/c01.py) holds
-     - C01_parser_expression_agrees_with_pratt, C01_parser_pratt_roundtrip,
-       C01_parser_make_statement_roundtrip, C01_parser_parens_redundant,
-       C01_parser_precedence_looser_operator_first, C01_parser_left_associative
-       (the statements of Properties/PARSER.v about the full parser model theories/Parser.v), and
-     - C01_eval_refines_spec (C04_impl_equals_spec_scoping composed with
-       C03_prune_sound_four_classes, proofs/C01Compose.v).
-   They live in their own file only so that the coqchk re-check of THIS file's closure does not
-   have to walk the Parser / LiveProofs / ScopeCalls developments as well (each of those is
-   re-checked by its own property: PARSER/C07/C10, C03, C04). *)
+(* ================================================================ the full parser model *)
+(* theories/Parser.v transcribes the whole of src/syntax/parser.rs (spans, diagnostics, recovery)
+   and reuses Pratt.v / Template.v; proofs/ParserPratt.v shows that its parse_expression coincides
+   with Pratt.parse_expr wherever the latter succeeds.  Statements as in Properties/PARSER.v. *)
+Require NS.Properties.PARSER.
+
+Theorem C01_parser_expression_agrees_with_pratt :
+  ltac:(let t := type of NS.Properties.PARSER.PARSER_expression_agrees_with_pratt in exact t).
+Proof. exact NS.Properties.PARSER.PARSER_expression_agrees_with_pratt. Qed.
+Print Assumptions C01_parser_expression_agrees_with_pratt.
+
+Theorem C01_parser_pratt_roundtrip :
+  ltac:(let t := type of NS.Properties.PARSER.PARSER_pratt_roundtrip in exact t).
+Proof. exact NS.Properties.PARSER.PARSER_pratt_roundtrip. Qed.
+Print Assumptions C01_parser_pratt_roundtrip.
+
+Theorem C01_parser_make_statement_roundtrip :
+  ltac:(let t := type of NS.Properties.PARSER.PARSER_make_statement_roundtrip in exact t).
+Proof. exact NS.Properties.PARSER.PARSER_make_statement_roundtrip. Qed.
+Print Assumptions C01_parser_make_statement_roundtrip.
+
+Theorem C01_parser_parens_redundant :
+  ltac:(let t := type of NS.Properties.PARSER.PARSER_parens_redundant in exact t).
+Proof. exact NS.Properties.PARSER.PARSER_parens_redundant. Qed.
+Print Assumptions C01_parser_parens_redundant.
+
+Theorem C01_parser_precedence_looser_operator_first :
+  ltac:(let t := type of NS.Properties.PARSER.PARSER_precedence_looser_operator_first in exact t).
+Proof. exact NS.Properties.PARSER.PARSER_precedence_looser_operator_first. Qed.
+Print Assumptions C01_parser_precedence_looser_operator_first.
+
+Theorem C01_parser_left_associative :
+  ltac:(let t := type of NS.Properties.PARSER.PARSER_left_associative in exact t).
+Proof. exact NS.Properties.PARSER.PARSER_left_associative. Qed.
+Print Assumptions C01_parser_left_associative.
+
+(* ================================================================ the umbrella statement *)
+(* eval_refines_spec, as far as the neighbouring properties prove it: for a program whose ids
+   are the lexical ones (C04: LexResolve.lexical, what the resolver is shown to produce by the
+   C04 correspondence), a plan the C03 checker accepts in its four proved classes with nothing
+   left over, and a reference run that finishes or raises a runtime error (comparable: not
+   stuck, not out of fuel, not unsupported), the implementation model WITH the plan prints the
+   same values and ends the same way, with the same fuel.
+   Exclusions carried over: programs outside `lexical` (the refuted early-capture class of
+   C04), plans with a non-empty residual (C03's unproved remainder), reference runs that are
+   stuck / out of fuel / unsupported, and everything F64.v, the operator tables and the
+   built-ins share between the two sides (validated by the f64 and programs streams). *)
+Require NS.proofs.C01Compose.
+Theorem C01_eval_refines_spec :
+  ltac:(let t := type of NS.proofs.C01Compose.eval_refines_spec in exact t).
+Proof. exact NS.proofs.C01Compose.eval_refines_spec. Qed.
+Print Assumptions C01_eval_refines_spec.
+Check (C01_eval_refines_spec :
+  forall eps fuel p ss fs o e,
+    NS.theories.LexResolve.lexical p = true ->
+    NS.theories.Spec.run_spec eps fuel p = (o, e) ->
+    NS.proofs.ScopeProofs.comparable e = true ->
+    NS.theories.PlanCheck.v_checked (NS.theories.LiveCheck.x_main (NS.theories.LiveCheck.plan_ok3 p ss fs)) = true ->
+    NS.theories.LiveCheck.x_checked (NS.theories.LiveCheck.plan_ok3 p ss fs) = true ->
+    NS.theories.LiveCheck.x_residual (NS.theories.LiveCheck.plan_ok3 p ss fs) = ([], []) ->
+    run_impl (Some (ss, fs)) eps fuel p = (o, NS.proofs.ScopeProofs.ending_of e)).
